@@ -6,7 +6,8 @@ make(globals(), "C05", [Lifting],
      families=["dip_in", "dip_out", "dip_ratio", "dip_motion", "dip_cellb", "dip_cellv", "water_vv", "water_vi",
                "water_pb", "water_pi", "water_one"],
      rule=("the derivative tables real event handlers build during seeded whole runs (three schemes, dipoles and "
-           "water, both insertion orders as they occur): (in-run) the selected unit has a negative derivative and a "
+           "water, both insertion orders as they occur): (in-run) every table handed to a scheme sums to zero (1e-7 of "
+           "sum|q|), the selected unit has a negative derivative and a "
            "fresh instance of the scheme fed the same recorded draws selects the same unit; (choice point) for a "
            "sample of tables every unit with positive derivative is taken as active on a fresh instance and the "
            "forced uniform variate is swept over (0,1) with bisection of every switch, giving the exact selection "
